@@ -12,8 +12,9 @@ def run(ctx):
     core_specs.filedata(ctx, maxfs_values=(0,))
     binp = ctx.build_harness(cc.HARNESS)
     q = ctx.quick()
-    trace, res, summ = cc.run_profile(ctx, binp, "data", 48 if q else 640, 40 if q else 60)
-    cc.report(ctx, PID, res, trace, "data")
+    runs = cc.run_profile(ctx, binp, "data", 48 if q else 320, 40 if q else 60)
+    cc.report_all(ctx, PID, runs, "data")
+    trace, res = runs[0]
     cc.mutate_and_reject(ctx, trace, "data", cc.mut_lose_data, "written byte altered in the logged backend state")
     ctx.cov["rule"] = ("seeded histories of CREATE/WRITE/READ/SETATTR(size)/GETATTR on two files with transfer sizes 4, 16, 64 and the "
                        "default, offsets 0, EOF+-1, beyond EOF, 2^63-1-d, 2^63+d, 2^64-1-d, counts 0, T-1, T, T+1, 2T, 2^32-1, under "
